@@ -105,10 +105,21 @@ class C15:
             return self.op_intermediate()
         code, pw, _ = self.intermediates[ch.index('ip', len(self.intermediates))]
         compressed = ch.coin('compressed', 0.7)
-        explicit = ch.coin('explicit_seed', 0.2)
+        explicit = ch.coin('explicit_seed', 0.3)
         kw = {'compressed': compressed, 'network': self.network}
         if explicit:
-            kw['seed'] = bytes([ch.int('seed_b', 128, 255)] * 24)
+            # seeds with a byte shape that arithmetic on integers loses (leading zero bytes) among ordinary ones
+            fill = bytes([ch.int('seed_b', 128, 255)])
+            shape = ch.pick('seed_shape', ['fill', 'zero_lead', 'zero_lead', 'almost_zero', 'ones'])
+            if shape == 'fill':
+                kw['seed'] = fill * 24
+            elif shape == 'zero_lead':
+                k0 = ch.pick('seed_k0', [1, 2, 8, 16, 17])
+                kw['seed'] = b'\x00' * k0 + fill * (24 - k0)
+            elif shape == 'almost_zero':
+                kw['seed'] = b'\x00' * 23 + b'\x01'
+            else:
+                kw['seed'] = b'\xff' * 24
         w.op('create_new_encrypted_wif', compressed=compressed, explicit_seed=explicit)
         ok, res, drawn = self.call('create', lambda: K.bip38_create_new_encrypted_wif(code, **kw))
         if not ok:
@@ -255,7 +266,8 @@ class C15:
         ch, w, K = self.ch, self.w, self.K
         if not self.encrypted:
             return self.op_encrypt()
-        enc, pw, priv, compressed, address, (cls, wt) = self.encrypted[ch.index('enc', len(self.encrypted))]
+        pos = len(self.encrypted) - 1 if ch.coin('dec_latest', 0.4) else ch.index('enc', len(self.encrypted))
+        enc, pw, priv, compressed, address, (cls, wt) = self.encrypted[pos]
 
         def dec(password, string=None):
             # a key is decrypted by the class that encrypted it (HDKey hashes the address of its witness type)
